@@ -6,6 +6,8 @@ import AlgoVerif.Proofs.C11LalrValid
 import AlgoVerif.Proofs.C11Term
 import AlgoVerif.Proofs.C11CompleteCheck
 import AlgoVerif.Proofs.C11CompleteSLRCheck
+import AlgoVerif.Proofs.C11Chain
+import AlgoVerif.Proofs.C11BuiltCompleteMain
 /-!
 # C11 — property theorems
 
@@ -347,6 +349,19 @@ theorem C11_terminates_partial (k : Kind) (g : SGrammar) (hv : ValidG g) (rank :
     (soundTable_of_within g b T (C11_built_tables_valid k g hv fuel b hb)
       (resolveAll_within ls order b.table hord (T, verdict) hr)) hn w hend fuel' hf
 
+set_option maxRecDepth 1000000 in
+/-- why `C11_terminates_partial` cannot simply be extended to grammars with ε-productions "but no cycles" on the basis of
+the soundness validator: `Y → A Y c | d`, `A → ε` has no cycle, its three tables are validated, the levels `[A → ε] > d`
+resolve every conflict — and the resolved driver reduces by `A → ε` for ever on the input `d` (still running after 300
+steps, where the ε-free bound would be `(2R+1)·1`).  Termination for ε-grammars therefore needs conflict-freeness of
+the RAW table plus the top-down "valid item" (viable prefix) invariant — every item of a state is reachable from
+`S′ → •S` along the stack — which neither validator group provides (the soundness group justifies items bottom-up
+only, the completeness group is about items that must be present, not about items that may be present); with it the
+number of reductions between two shifts is bounded because the stack then is a prefix of a sentential form of a
+cycle-free grammar.  Stated, not proved. -/
+theorem C11_termination_needs_conflict_freeness :
+    loops .slr = true ∧ loops .lalr = true ∧ loops .lr1 = true := by decide
+
 /-- the expression grammar `E → E + E | E * E | id`: no ε-production, no unit production at all -/
 example : NoEpsUnitCycle
     { terms := ["id", "+", "*"], nonterms := ["E"], start := "E",
@@ -405,6 +420,27 @@ theorem C11_agree_validated (k₁ k₂ : Kind) (g : SGrammar) (hv : ValidG g) (f
     (∃ fuel π root, parse b₁.table.toTbl fuel w = .ok (.accept π root)) ↔
     (∃ fuel π root, parse b₂.table.toTbl fuel w = .ok (.accept π root)) :=
   (C11_exact_validated k₁ g hv f₁ b₁ hb₁ hc₁ w hend).symm.trans (C11_exact_validated k₂ g hv f₂ b₂ hb₂ hc₂ w hend)
+
+/-- the success chain, in validated form: if the per-run certificate `Spec.chainCert` holds between the SLR(1) and
+the LALR(1) table and between the LALR(1) and the LR(1) table of a grammar (mapping states by kernel cores, every
+action of the finer table is present in the corresponding cell of the coarser one: per-core lookahead inclusion),
+then LALR is conflict-free whenever SLR is, and LR(1) whenever LALR is.  The certificate is evaluated by the driver
+(`chain` op) on the three tables of every generated grammar.
+Missing for the unconditional chain: `∀ g reduced, chainCert (slr) (lalr) ∧ chainCert (lalr) (lr1)` (LALR lookaheads ⊆
+FOLLOW, LR(1) lookaheads ⊆ LALR lookaheads per core: exactness of FOLLOW and of the propagation algorithm). -/
+theorem C11_chain_validated (bS bL bC : Built) (h1 : chainCert bS bL = true) (h2 : chainCert bL bC = true) :
+    (chkConflictFree bS.table = true → chkConflictFree bL.table = true) ∧
+    (chkConflictFree bL.table = true → chkConflictFree bC.table = true) :=
+  ⟨AlgoVerif.C11.Chain.conflictFree_of_cert bS bL h1, AlgoVerif.C11.Chain.conflictFree_of_cert bL bC h2⟩
+
+set_option maxRecDepth 1000000 in
+/-- the certificate holds between the tables of the dragon-book grammar `S → L = R | R` … (SLR has a conflict there,
+LALR and LR(1) have none), so the theorem's hypotheses are satisfiable on a grammar where the constructions differ -/
+theorem C11_chain_witness :
+    (match build .slr gLR 60, build .lalr gLR 60, build .lr1 gLR 60 with
+     | .ok a, .ok b, .ok c =>
+       chainCert a b && chainCert b c && !chkConflictFree a.table && chkConflictFree b.table && chkConflictFree c.table
+     | _, _, _ => false) = true := by decide
 
 set_option maxRecDepth 1000000 in
 /-- the validator accepts the SLR(1), LALR(1) and LR(1) tables of `S → a S b | ε` and the LALR(1) and LR(1) tables of the
@@ -490,10 +526,17 @@ termination for grammars without ε-productions and unit cycles.  Not proved:
   link from an item that has one, which needs the propagation loop to have reached its fixpoint, duplicate-free
   kernels, and FIRST(β·$) ≠ ∅ for every suffix β (true when every non-terminal is productive: the "reduced grammar" of
   the property; for a grammar with an unproductive non-terminal the Go code does dereference a nil set there).
-* Inclusion chain: `verdict (slr) = table → verdict (lalr) = table → verdict (lr1) = table`.  Needs lookahead inclusion
-  LR(1) ⊆ LALR ⊆ FOLLOW per core (exactness of the propagation algorithm and of FOLLOW) and a core-preserving simulation
-  of the LR(1) automaton by the LR(0) one.  The second half of that conjunct — all successful constructions accept the
-  same strings — is `C11_agree_validated`.
+  A conditional form with per-run conditions was considered and rejected: the only decidable conditions that imply
+  "no panic" (the kernel state map is closed under GOTO; every kernel item has a lookahead entry after propagation) are
+  the two panic tests themselves, evaluated on intermediate values of the builder — running the Model's builder (which
+  every `build lalr` line of the correspondence run does, `panic` being a visible outcome) already is that evaluation.
+* Inclusion chain: proved in validated form (`C11_chain_validated`: the per-run certificate `Spec.chainCert` — per-core
+  lookahead inclusion along the kernel-core state map — implies LALR conflict-free whenever SLR is, LR(1) whenever LALR
+  is; the driver's `chain` op evaluates it on every generated grammar).  Unconditionally it needs exactness of FOLLOW
+  and of the propagation algorithm.  The second half of that conjunct — all successful constructions accept the same
+  strings — is `C11_agree_validated`.
+* Termination beyond the ε-free case: see `C11_termination_needs_conflict_freeness` for why the validators do not
+  suffice and what invariant is missing.
 * Grouping (`C11_groups_as_declared`): on `E → E op E | id` with every operator listed in a LEFT/RIGHT level, for every
   `w`: the resolved parser accepts `w` iff `Spec.climb ls w = some e`, and then its AST is `e`.  Proved: the per-cell
   content (`C11_compare_rule`, `C11_resolve_shift_reduce`: in the state holding `E → E opᵢ E •` on lookahead `opⱼ` the
@@ -504,3 +547,25 @@ termination for grammars without ε-productions and unit cycles.  Not proved:
 All of these are checked as oracles on every generated case (exact bounded language, all strings up to the bound,
 the three constructions side by side, both validator groups, precedence-climbing reference), not proved.
 -/
+
+/-! ## 8. Exactness for built SLR(1) and canonical LR(1) tables (proofs in `Proofs/C11BuiltComplete*.lean`)
+
+The link that §5 lists as missing is closed for two of the three constructions: every conflict-free table BUILT by
+the Model's SLR and canonical LR(1) builders passes the completeness validator (CLOSURE reaches its fixpoint, the
+collection is closed under GOTO, nullable/FIRST/FOLLOW are closed under the productions, the fill enters every
+shift, goto, reduce and accept), so "accepts exactly L(G)" holds without any per-run validation. LALR remains in
+validated form (`C11_exact_validated`). -/
+
+/-- A conflict-free canonical LR(1) table built for a well-formed grammar accepts exactly L(G). -/
+theorem C11_exact_lr1 (g : SGrammar) (hv : ValidG g) (ht : AlgoVerif.C11.BuiltComplete.TermsListed g) (fuel : Nat)
+    (b : Built) (hb : build .lr1 g fuel = .ok b) (hcf : chkConflictFree b.table = true) (w : List String)
+    (hend : endmarker ∉ w) :
+    Language g w ↔ ∃ fuel' π root, parse b.table.toTbl fuel' w = .ok (.accept π root) :=
+  AlgoVerif.C11.BuiltComplete.C11_exact_lr1 g hv ht fuel b hb hcf w hend
+
+/-- A conflict-free SLR(1) table built for a well-formed grammar accepts exactly L(G). -/
+theorem C11_exact_slr (g : SGrammar) (hv : ValidG g) (ht : AlgoVerif.C11.BuiltComplete.TermsListed g) (fuel : Nat)
+    (b : Built) (hb : build .slr g fuel = .ok b) (hcf : chkConflictFree b.table = true) (w : List String)
+    (hend : endmarker ∉ w) :
+    Language g w ↔ ∃ fuel' π root, parse b.table.toTbl fuel' w = .ok (.accept π root) :=
+  AlgoVerif.C11.BuiltComplete.C11_exact_slr g hv ht fuel b hb hcf w hend
